@@ -260,6 +260,19 @@ pub fn tamper_stream(out: &mut Out, tier: &str, seed: u64, c02: bool, c17: bool)
                         if st.verif_parts() != (*k2, *n2) { out.hit("stream.pull.rejected-pull-changes-state", format!("{} len {}", what, len), rp.clone()); }
                     }
                 }
+                // the same tampered ciphertext with the output buffer sized for the message the receiver
+                // expects (not for the bytes received): still rejected, nothing written
+                if !authentic && (what.starts_with("extended") || what.starts_with("trunc")) {
+                    let mut st2 = State::verif_from_parts(k2, n2);
+                    let (r2, mb2, tv2) = d_pull(&mut st2, c2, a2, len);
+                    out.search_evaluations += 1;
+                    let rp2 = json!({"op":"stream.pull","k":hx(k2),"nonce":hx(n2),"c":hx(c2),"ad":hx(a2),"what":what,"message_buffer_len":len});
+                    if c02 && r2.is_ok() { out.hit(&format!("stream.pull.accepts-tampered.{}.buffer-sized-for-expected-message", what.split(' ').next().unwrap()), format!("{} len {} adlen {}", what, len, adl), rp2.clone()); }
+                    if r2.is_panic() && c2.len() >= 17 && len >= c2.len() - 17 { out.hit("stream.pull.panics-on-tampered", format!("{} len {} (buffer sized for the expected message)", what, len), rp2.clone()); }
+                    if c17 && r2.is_err() && (!(mb2.iter().all(|x| *x == SENT) || mb2.iter().all(|x| *x == 0)) || tv2 != TAGSENT || st2.verif_parts() != (*k2, *n2)) {
+                        out.hit("stream.pull.buffer-after-failed-pull", format!("{} len {} (buffer sized for the expected message)", what, len), rp2.clone());
+                    }
+                }
                 if len <= 20 && (authentic || idx % 29 == 0 || what.starts_with("trunc")) {
                     let steps = Tok::L(vec![Tok::L(vec![Tok::I(2), b(c2), b(a2), b(&vec![SENT; mbl]), Tok::I(TAGSENT as i64)])]);
                     let mut rr = vec![cls(&r), Tok::I(r.clone().ok().unwrap_or(0) as i64), b(&mb), Tok::I(tv as i64)];
